@@ -264,7 +264,82 @@ def build_lib(spec):
     return top, list(ins.values()) + [cd.clk, cd.rst] + outs[::3], None
 
 
-BUILDERS = {"dedup": build_dedup, "hier": build_hier, "inst": build_inst, "mem": build_mem, "lib": build_lib, "stmtbatch": build_lib}
+
+# ------------------------------------------------------------------ signals with shape-castable shapes (enum attributes, field wires)
+SHAPED = ("uenum", "senum", "senum1", "flag", "struct", "struct_senum", "array", "union")
+
+
+def shaped_designs():
+    for shape in SHAPED:
+        for dup in (0, 1, 2):           # 0: one signal; 1: two signals with the same name in one module; 2: same name in parent and child
+            for place in (0, 1):        # module holding the first signal: top / child
+                for as_port in (False, True):
+                    yield {"kind": "shaped", "shape": shape, "dup": dup, "place": place, "as_port": as_port}
+
+
+def _shaped(name):
+    from amaranth.hdl import signed
+    from amaranth.lib import enum as aenum, data
+
+    class UE(aenum.Enum, shape=2):
+        A = 0
+        B = 3
+
+    class SE(aenum.Enum, shape=signed(3)):
+        N = -4
+        M = -1
+        Z = 0
+        P = 3
+
+    class SE1(aenum.Enum, shape=signed(1)):
+        N = -1
+        Z = 0
+
+    class FL(aenum.Flag, shape=3):
+        X = 1
+        Y = 4
+    members = {"uenum": (UE, 2), "senum": (SE, 3), "senum1": (SE1, 1), "flag": (FL, 3)}
+    if name in members:
+        cls, w = members[name]
+        return cls, {format(m.value & ((1 << w) - 1), f"0{w}b"): m.name for m in cls}
+    if name == "struct":
+        return data.StructLayout({"a": 2, "b": signed(2)}), {}
+    if name == "struct_senum":
+        return data.StructLayout({"k": SE, "v": 1, "u": UE}), {format(m.value & 7, "03b"): m.name for m in SE} | {format(m.value, "02b"): m.name for m in UE}
+    if name == "array":
+        return data.ArrayLayout(signed(2), 2), {}
+    return data.UnionLayout({"x": 3, "e": SE1}), {format(m.value & 1, "01b"): m.name for m in SE1}
+
+
+def build_shaped(spec):
+    from amaranth.hdl import Module, Signal, Value
+    top, child = Module(), Module()
+    top.submodules.child = child
+    shape, _enum = _shaped(spec["shape"])
+    nodes = [top, child]
+    w = len(Value.cast(Signal(shape)))
+    x = Signal(w, name="x")
+    ports = [x]
+    first = Signal(shape, name="payload")
+    nodes[spec["place"]].d.comb += Value.cast(first).eq(x)
+    sigs = [first]
+    if spec["dup"]:
+        second = Signal(shape, name="payload")
+        where = nodes[spec["place"]] if spec["dup"] == 1 else nodes[1 - spec["place"]]
+        where.d.comb += Value.cast(second).eq(~x)
+        sigs.append(second)
+    y = Signal(w, name="y")
+    acc = Value.cast(sigs[0])
+    for sg in sigs[1:]:
+        acc = acc ^ Value.cast(sg)
+    top.d.comb += y.eq(acc)
+    ports.append(y)
+    if spec["as_port"]:
+        ports += [Value.cast(sg) for sg in sigs]
+    return top, ports, None
+
+
+BUILDERS = {"dedup": build_dedup, "hier": build_hier, "inst": build_inst, "mem": build_mem, "lib": build_lib, "stmtbatch": build_lib, "shaped": build_shaped}
 
 
 def check_one(spec):
@@ -280,6 +355,13 @@ def check_one(spec):
         except Exception as ex:
             return None, [f"convert raises {type(ex).__name__}: {ex}"], False
     probs, modules = validate(text, instances=exp if exp is not None else {})
+    if spec["kind"] == "shaped":
+        # every enumeration member is announced as an attribute keyed by its bit pattern (two's complement at the signal's / field's width)
+        import re
+        got = {(b, n) for b, n in re.findall(r'attribute \\enum_value_([01]*) "([^"]*)"', text)}
+        want = set(_shaped(spec["shape"])[1].items())
+        if got != want:
+            probs = probs + [f"enum_value attributes {sorted(got)} differ from the members' bit patterns {sorted(want)}"]
     return text, probs, False
 
 
@@ -313,7 +395,7 @@ def spec_sig(spec):
 
 
 def run(rep):
-    specs = list(hier_designs(rep.quick)) + list(dedup_designs()) + list(inst_designs()) + list(mem_designs()) + list(lib_designs())
+    specs = list(hier_designs(rep.quick)) + list(dedup_designs()) + list(inst_designs()) + list(mem_designs()) + list(lib_designs()) + list(shaped_designs())
     rep.setcov("designs_enumerated", len(specs))
     tasks = rotate(list(chunks(specs, 60)), rep.seed)
     for part in pmap(work, tasks, rep.procs):
@@ -322,7 +404,9 @@ def run(rep):
                "(duplicates, a$1/a$2 suffix clashes, private '', clashes with ports/submodules/clk, odd characters), widths incl. 0, partial use, anonymous and "
                "duplicate-named submodules, empty modules; foreign Instances (str/int/big/negative/float/Const parameters, attributes, i/o/io ports connected to "
                "signals/slices/concatenations/constants, at 3 hierarchy levels); memories (depth 0..4, width 0..3, 0-2 ports, comb/sync, granularity); the C04 "
-               "sequential designs and C02 statement batches with shared signal names. Each emitted document is checked by vf/rtlil/validate.py. "
+               "sequential designs and C02 statement batches with shared signal names; signals shaped by enumerations (unsigned, signed with negative members, "
+               "flags), structs, arrays and unions, alone and with a same-named twin in the same or another module (enum_value attributes compared with "
+               "the members' two's-complement bit patterns). Each emitted document is checked by vf/rtlil/validate.py. "
                "non-trivial: a document was emitted")
     rep.setcov("exhaustive", True)
     rep.require(rep.cov.get("harness_skips", 0) == 0, "every enumerated design could be built")
